@@ -166,6 +166,53 @@ def map_contracts(entries_of):
             return [exe.call_local(p, name, [first, Ref(ka), Ref(kb)], then, k)]
         return step(exe, path, 0)
 
+    lower = z3.Function('to_lowercase', z3.StringSort(), z3.StringSort())
+
+    @reg(r'core::str::<impl str>::to_lowercase$|core::str::<impl str>::to_ascii_lowercase$|core::str::<impl str>::to_uppercase$')
+    def to_lower(exe, path, callee, args, dst_ty):
+        s_ = contracts.strval(exe, path, args[0])
+        if not (isinstance(s_, z3.ExprRef) and z3.is_string(s_)):
+            raise MirUnsupported('case mapping of %r' % (s_,))
+        return [('ret', path, lower(s_))]        # an arbitrary (not necessarily injective) function of the string
+
+    @reg(r'std::slice::<impl \[.*\]>::sort_by_cached_key::<|std::slice::<impl \[.*\]>::sort_by_key::<')
+    def sort_by_key(exe, path, callee, args, dst_ty):
+        ref, clo = args[0], args[1]
+        v = exe.load(path, ref)
+        n = len(v.fields)
+        if n > 3:
+            raise MirUnsupported('sort_by_key of %d elements' % n)
+        ckey = ('clo_key', path.new_fid())
+        path.store[ckey] = clo
+        name, by_ref = contracts.closure_fn(exe, clo)
+
+        def finish(exe, p, keys):
+            for (i, j) in sort_network(n):
+                cur = exe.load(p, ref)
+                a, b = cur.fields[i], cur.fields[j]
+                greater = keys[j] < keys[i]          # strict: ties keep their order (stable sort)
+                new = cur.with_field(i, merge(greater, b, a)).with_field(j, merge(greater, a, b))
+                exe.store_at(p, ref.key, ref.proj, new)
+                keys = list(keys)
+                keys[i], keys[j] = z3.If(greater, keys[j], keys[i]), z3.If(greater, keys[i], keys[j])
+            return [('ret', p, UNIT)]
+
+        def step(exe, p, keys, i):
+            if i >= n:
+                return finish(exe, p, keys)
+            cur = exe.load(p, ref)
+            ek = ('tmpk', p.new_fid())
+            p.store[ek] = cur.fields[i]
+
+            def then(exe, p2, kv, data):
+                ks, i2 = data
+                kv = contracts.strval(exe, p2, kv)
+                if not (isinstance(kv, z3.ExprRef) and z3.is_string(kv)):
+                    raise MirUnsupported('sort key %r' % (kv,))
+                return step(exe, p2, ks + [kv], i2 + 1)
+            return [exe.call_local(p, name, [Ref(ckey) if by_ref else clo, Ref(ek)], then, (keys, i))]
+        return step(exe, path, [], 0)
+
     @reg(r'std::slice::<impl \[\(&str, usize\)\]>::sort$')
     def sort_pairs(exe, path, callee, args, dst_ty):
         ref = args[0]
@@ -311,8 +358,8 @@ def run_list_fields(mod, res, n):
 
 STRESS = {
     'files': [['a', '<view p="{{x}}" q="{{y}}" r="{{z}}" s="{{w}}" t="{{v}}">{{u}}</view><comp><item slot:c slot:a p="{{c+a}}"/><item slot:b slot:a>{{b}}</item><view slot:d slot:e slot:f/></comp><import src="b"/><template is="t"/>'],
-              ['b', '<template name="t"><view m="{{n}}" o="{{k}}" j="{{i}}"/></template>'], ['c', '<text a1="{{b1}}" c1="{{d1}}" e1="{{f1}}"/>'], ['d', '<view/>'], ['e', '<view x="{{y}}"/>'], ['f', '<include src="a"/>']],
-    'scripts': [['s1', 'exports.a=1'], ['s2', 'exports.b=2'], ['s3', 'exports.c=3'], ['s4', 'exports.d=4']],
+              ['b', '<template name="t"><view m="{{n}}" o="{{k}}" j="{{i}}"/></template>'], ['c', '<text a1="{{b1}}" c1="{{d1}}" e1="{{f1}}"/>'], ['d', '<view/>'], ['e', '<view x="{{y}}"/>'], ['f', '<include src="a"/>'], ['D', '<text/>'], ['E', '<view q="{{r}}"/>'], ['comp/Item', '<view/>'], ['comp/item', '<text/>']],
+    'scripts': [['s1', 'exports.a=1'], ['s2', 'exports.b=2'], ['s3', 'exports.c=3'], ['s4', 'exports.d=4'], ['S1', 'exports.e=5'], ['utils/Format.wxs', 'exports.f=6'], ['utils/format.wxs', 'exports.g=7']],
     'main': 'a', 'want': ['gen_groups', 'wx_groups', 'scripts', 'gen_object', 'runtime'],
 }
 
